@@ -17,7 +17,8 @@ import (
 // the package's own encoders. It changes nothing of the package's behaviour.
 
 // VerifChallengeInput returns the exact byte string VerifyProof hashes into the challenge for these arguments
-// (the steps of VerifyProof up to frFromOKM, through the same functions).
+// (the steps of VerifyProof up to frFromOKM, through the same functions). It does not apply VerifyProof's rejection
+// of payloads revealing indexes beyond the message count, so that GetBytesForChallenge can be observed on them too.
 func VerifChallengeInput(messagesBytes [][]byte, proof, nonce, pubKeyBytes []byte) ([]byte, error) {
 	payload, err := parsePoKPayload(proof)
 	if err != nil {
